@@ -63,9 +63,124 @@ package object
 //@   ensures res != nil && res.Value == f && res.proto == BuiltInFloatObj && fresh(res)
 //@   assigns nothing
 //
+//@ global_inv zeroFloat != nil
+//
+// ---- specs of the remaining prototype-chain walkers (same shape as traceInt) ----
+//@ props C01 C05 C11 C18 C12 C09 C13
+//@ spec fun traceBool(o PanObject) *PanBool
+//@ axiom traceBool_def: forall o PanObject :: {traceBool(o)} o != nil ==> traceBool(o) == (o.Proto() == nil ? nil : (isT(o, *PanBool) ? as(o, *PanBool) : traceBool(o.Proto())))
+//@ func object.TraceProtoOfBool(obj) res, ok
+//@   requires isVal(obj)
+//@   ensures  res == traceBool(obj)
+//@   ensures  ok <==> res != nil
+//@   assigns  nothing
+//@   loop 1 invariant isVal(o) && traceBool(o) == traceBool(obj)
+//
+//@ spec fun traceBuiltInFunc(o PanObject) *PanBuiltIn
+//@ axiom traceBuiltInFunc_def: forall o PanObject :: {traceBuiltInFunc(o)} o != nil ==> traceBuiltInFunc(o) == (o.Proto() == nil ? nil : (isT(o, *PanBuiltIn) ? as(o, *PanBuiltIn) : traceBuiltInFunc(o.Proto())))
+//@ func object.TraceProtoOfBuiltInFunc(obj) res, ok
+//@   requires isVal(obj)
+//@   ensures  res == traceBuiltInFunc(obj)
+//@   ensures  ok <==> res != nil
+//@   assigns  nothing
+//@   loop 1 invariant isVal(o) && traceBuiltInFunc(o) == traceBuiltInFunc(obj)
+//
+//@ spec fun traceBuiltInIter(o PanObject) *PanBuiltInIter
+//@ axiom traceBuiltInIter_def: forall o PanObject :: {traceBuiltInIter(o)} o != nil ==> traceBuiltInIter(o) == (o.Proto() == nil ? nil : (isT(o, *PanBuiltInIter) ? as(o, *PanBuiltInIter) : traceBuiltInIter(o.Proto())))
+//@ func object.TraceProtoOfBuiltInIter(obj) res, ok
+//@   requires isVal(obj)
+//@   ensures  res == traceBuiltInIter(obj)
+//@   ensures  ok <==> res != nil
+//@   assigns  nothing
+//@   loop 1 invariant isVal(o) && traceBuiltInIter(o) == traceBuiltInIter(obj)
+//
+//@ spec fun traceFunc(o PanObject) *PanFunc
+//@ axiom traceFunc_def: forall o PanObject :: {traceFunc(o)} o != nil ==> traceFunc(o) == (o.Proto() == nil ? nil : (isT(o, *PanFunc) ? as(o, *PanFunc) : traceFunc(o.Proto())))
+//@ func object.TraceProtoOfFunc(obj) res, ok
+//@   requires isVal(obj)
+//@   ensures  res == traceFunc(obj)
+//@   ensures  ok <==> res != nil
+//@   assigns  nothing
+//@   loop 1 invariant isVal(o) && traceFunc(o) == traceFunc(obj)
+//
+//@ spec fun traceIO(o PanObject) *PanIO
+//@ axiom traceIO_def: forall o PanObject :: {traceIO(o)} o != nil ==> traceIO(o) == (o.Proto() == nil ? nil : (isT(o, *PanIO) ? as(o, *PanIO) : traceIO(o.Proto())))
+//@ func object.TraceProtoOfIO(obj) res, ok
+//@   requires isVal(obj)
+//@   ensures  res == traceIO(obj)
+//@   ensures  ok <==> res != nil
+//@   assigns  nothing
+//@   loop 1 invariant isVal(o) && traceIO(o) == traceIO(obj)
+//
+//@ spec fun traceMatch(o PanObject) *PanMatch
+//@ axiom traceMatch_def: forall o PanObject :: {traceMatch(o)} o != nil ==> traceMatch(o) == (o.Proto() == nil ? nil : (isT(o, *PanMatch) ? as(o, *PanMatch) : traceMatch(o.Proto())))
+//@ func object.TraceProtoOfMatch(obj) res, ok
+//@   requires isVal(obj)
+//@   ensures  res == traceMatch(obj)
+//@   ensures  ok <==> res != nil
+//@   assigns  nothing
+//@   loop 1 invariant isVal(o) && traceMatch(o) == traceMatch(obj)
+//
+//@ spec fun traceObj(o PanObject) *PanObj
+//@ axiom traceObj_def: forall o PanObject :: {traceObj(o)} o != nil ==> traceObj(o) == (o.Proto() == nil ? nil : (isT(o, *PanObj) ? as(o, *PanObj) : traceObj(o.Proto())))
+//@ func object.TraceProtoOfObj(obj) res, ok
+//@   requires isVal(obj)
+//@   ensures  res == traceObj(obj)
+//@   ensures  ok <==> res != nil
+//@   assigns  nothing
+//@   loop 1 invariant isVal(o) && traceObj(o) == traceObj(obj)
+//
+//@ spec fun traceErrWrapper(o PanObject) *PanErrWrapper
+//@ axiom traceErrWrapper_def: forall o PanObject :: {traceErrWrapper(o)} o != nil ==> traceErrWrapper(o) == (o.Proto() == nil ? nil : (isT(o, *PanErrWrapper) ? as(o, *PanErrWrapper) : traceErrWrapper(o.Proto())))
+//@ func object.TraceProtoOfErrWrapper(obj) res, ok
+//@   requires isVal(obj)
+//@   ensures  res == traceErrWrapper(obj)
+//@   ensures  ok <==> res != nil
+//@   assigns  nothing
+//@   loop 1 invariant isVal(o) && traceErrWrapper(o) == traceErrWrapper(obj)
+//
+//@ spec fun traceArr(o PanObject) *PanArr
+//@ axiom traceArr_def: forall o PanObject :: {traceArr(o)} o != nil ==> traceArr(o) == (o.Proto() == nil ? nil : (isT(o, *PanArr) ? as(o, *PanArr) : (isT(o.Zero(), *PanArr) ? as(o.Zero(), *PanArr) : traceArr(o.Proto()))))
+//@ func object.TraceProtoOfArr(obj) res, ok
+//@   requires isVal(obj)
+//@   ensures  res == traceArr(obj)
+//@   ensures  ok <==> res != nil
+//@   assigns  nothing
+//@   loop 1 invariant isVal(o) && traceArr(o) == traceArr(obj)
+//
+//@ spec fun traceFloat(o PanObject) *PanFloat
+//@ axiom traceFloat_def: forall o PanObject :: {traceFloat(o)} o != nil ==> traceFloat(o) == (o.Proto() == nil ? nil : (o == BuiltInFloatObj ? zeroFloat : (isT(o, *PanFloat) ? as(o, *PanFloat) : traceFloat(o.Proto()))))
 //@ func object.TraceProtoOfFloat(obj) res, ok
 //@   requires isVal(obj)
-//@   ensures  ok ==> res != nil
+//@   ensures  res == traceFloat(obj)
+//@   ensures  ok <==> res != nil
 //@   assigns  nothing
-//@   loop 1 invariant isVal(o)
-//@ global_inv zeroFloat != nil
+//@   loop 1 invariant isVal(o) && traceFloat(o) == traceFloat(obj)
+//
+//@ spec fun traceMap(o PanObject) *PanMap
+//@ axiom traceMap_def: forall o PanObject :: {traceMap(o)} o != nil ==> traceMap(o) == (o.Proto() == nil ? nil : (o == BuiltInMapObj ? zeroMap : (isT(o, *PanMap) ? as(o, *PanMap) : traceMap(o.Proto()))))
+//@ func object.TraceProtoOfMap(obj) res, ok
+//@   requires isVal(obj)
+//@   ensures  res == traceMap(obj)
+//@   ensures  ok <==> res != nil
+//@   assigns  nothing
+//@   loop 1 invariant isVal(o) && traceMap(o) == traceMap(obj)
+//
+//@ spec fun traceRange(o PanObject) *PanRange
+//@ axiom traceRange_def: forall o PanObject :: {traceRange(o)} o != nil ==> traceRange(o) == (o.Proto() == nil ? nil : (o == BuiltInRangeObj ? zeroRange : (isT(o, *PanRange) ? as(o, *PanRange) : traceRange(o.Proto()))))
+//@ func object.TraceProtoOfRange(obj) res, ok
+//@   requires isVal(obj)
+//@   ensures  res == traceRange(obj)
+//@   ensures  ok <==> res != nil
+//@   assigns  nothing
+//@   loop 1 invariant isVal(o) && traceRange(o) == traceRange(obj)
+//
+//@ spec fun traceStr(o PanObject) *PanStr
+//@ axiom traceStr_def: forall o PanObject :: {traceStr(o)} o != nil ==> traceStr(o) == (o.Proto() == nil ? nil : (o == BuiltInStrObj ? zeroStr : (isT(o, *PanStr) ? as(o, *PanStr) : traceStr(o.Proto()))))
+//@ func object.TraceProtoOfStr(obj) res, ok
+//@   requires isVal(obj)
+//@   ensures  res == traceStr(obj)
+//@   ensures  ok <==> res != nil
+//@   assigns  nothing
+//@   loop 1 invariant isVal(o) && traceStr(o) == traceStr(obj)
+//
